@@ -452,10 +452,9 @@ impl PartitionSampler {
         let total_stake: Stake = validators.iter().map(|v| v.stake).sum();
         let stake_per_bin = total_stake.div_ceil(num_bins as u64);
         let mut validators_random = validators;
-        #[cfg(not(feature = "verif-hooks"))]
-        validators_random.shuffle(&mut rand::rng());
-        #[cfg(feature = "verif-hooks")]
-        validators_random.shuffle(&mut crate::verif::rng());
+        // NOTE: All nodes have to derive the same partition, otherwise they disagree on
+        // the relays. So the shuffle is seeded with a constant instead of the thread RNG.
+        validators_random.shuffle(&mut StdRng::from_seed(*b"ALPENGLOW-PARTITION-SAMPLER-SEED"));
 
         // partition into bins
         let mut current_bin = 0;
